@@ -19,6 +19,7 @@ ASSUMPTIONS = [
 ]
 RULE = ("strings from the address grammar (hosts, IPv4/IPv6 literals, displays, ports incl. negative, signed, underscored, padded with blanks), "
         "a mutation stream (extra colons, text after ']', empty parts, non-numeric numbers, existing paths) and ALL strings of length <= 5 over {a,1,:,[,],.}; "
+        "a sample of accepted and rejected strings is also run through vncdo, api.connect and vnclog with a recording connector (host, port, family handed over); "
         "non-trivial = distinct string that contains ':' or '[' (anything but a bare host)")
 
 FAM = {socket.AF_INET: "inet", socket.AF_INET6: "inet6", socket.AF_UNSPEC: "unspec", getattr(socket, "AF_UNIX", -1): "unix"}
@@ -135,6 +136,109 @@ def gen(ctx, tmp):
     return out
 
 
+class _Rx:
+    """a reactor that only records"""
+    running = True
+    exit_status = None
+
+    def __init__(self):
+        self.when_running = []
+
+    def callWhenRunning(self, f, *a, **k):
+        self.when_running.append((f, a, k))
+
+    def callFromThread(self, f, *a, **k):
+        pass
+
+    def callLater(self, *a, **k):
+        pass
+
+    def listenTCP(self, *a, **k):
+        pass
+
+    def run(self, *a, **k):
+        pass
+
+    def stop(self):
+        pass
+
+
+def connector_args(s):
+    """what vncdo, api.connect and vnclog hand to the connector for the server string s:
+    {'vncdo': ('ok', fam, host, port) | ('err', ...), 'api': ..., 'vnclog': ...}"""
+    import sys
+    from unittest import mock
+    from vncdotool import api, client as vclient
+    out = {}
+    # vncdo -s S key a
+    rec = []
+    with mock.patch.object(command, "reactor", _Rx()), mock.patch.object(command, "setup_logging", lambda o: None), \
+            mock.patch.object(command, "factory_connect", lambda f, h, p_, fam: rec.append((h, p_, fam))), \
+            mock.patch.object(sys, "argv", ["vncdo", "-s", s, "key", "a"]), mock.patch.object(sys, "stderr", open(os.devnull, "w")):
+        try:
+            command.vncdo()
+            out["vncdo"] = ("ok", FAM.get(rec[0][2], str(rec[0][2])), rec[0][0], rec[0][1]) if len(rec) == 1 else ("err", "connects=%d" % len(rec))
+        except ValueError:
+            out["vncdo"] = ("err", "value") if not rec else ("err", "raised-after-connect")
+        except SystemExit as e:
+            # vncdo always ends with sys.exit(reactor.exit_status); before a connection attempt it is the option parser's error exit
+            out["vncdo"] = ("err", "exit") if not rec else (("ok", FAM.get(rec[0][2], str(rec[0][2])), rec[0][0], rec[0][1]) if len(rec) == 1 else ("err", "connects=%d" % len(rec)))
+        except Exception as e:  # noqa
+            out["vncdo"] = ("err", exc_class(e))
+    # api.connect(S): the real proxy class, the reactor only records what is scheduled
+    rx = _Rx()
+    with mock.patch.object(api, "reactor", rx):
+        try:
+            api.connect(s)
+            calls = [c for c in rx.when_running if c[0] is api.factory_connect or getattr(c[0], "__name__", "") == "factory_connect"]
+            if len(calls) == 1:
+                _f, h, p_, fam = calls[0][1]
+                out["api"] = ("ok", FAM.get(fam, str(fam)), h, p_)
+            else:
+                out["api"] = ("err", "connects=%d" % len(calls))
+        except ValueError:
+            out["api"] = ("err", "value") if not rx.when_running else ("err", "raised-after-connect")
+        except Exception as e:  # noqa
+            out["api"] = ("err", exc_class(e))
+    # vnclog -s S out.vdo
+    rec = []
+    with mock.patch.object(command, "reactor", _Rx()), mock.patch.object(command, "setup_logging", lambda o: None), \
+            mock.patch.object(command, "build_proxy", lambda o: rec.append((o.host, o.port, o.address_family)) or mock.Mock()), \
+            mock.patch.object(sys, "argv", ["vnclog", "-s", s, "out.vdo"]), mock.patch.object(sys, "stderr", open(os.devnull, "w")):
+        try:
+            command.vnclog()
+            out["vnclog"] = ("ok", FAM.get(rec[0][2], str(rec[0][2])), rec[0][0], rec[0][1]) if len(rec) == 1 else ("err", "proxies=%d" % len(rec))
+        except ValueError:
+            out["vnclog"] = ("err", "value") if not rec else ("err", "raised-after-build")
+        except SystemExit:
+            out["vnclog"] = ("err", "exit") if not rec else (("ok", FAM.get(rec[0][2], str(rec[0][2])), rec[0][0], rec[0][1]) if len(rec) == 1 else ("err", "proxies=%d" % len(rec)))
+        except Exception as e:  # noqa
+            out["vnclog"] = ("err", exc_class(e))
+    return out
+
+
+def endpoint_for(fam, host, port):
+    """which endpoint client.factory_connect builds for a family"""
+    from unittest import mock
+    from vncdotool import client as vclient
+    made = []
+
+    class Ep:
+        def __init__(self, kind, *a):
+            made.append((kind,) + a[1:])
+
+        def connect(self, f):
+            from twisted.internet.defer import Deferred
+            return Deferred()
+    with mock.patch.object(vclient, "HostnameEndpoint", lambda *a: Ep("hostname", *a)), \
+            mock.patch.object(vclient, "UNIXClientEndpoint", lambda *a: Ep("unix", *a)):
+        try:
+            vclient.factory_connect(mock.Mock(), host, port, fam)
+        except ValueError:
+            return ("err", "value")
+    return made[0] if len(made) == 1 else ("err", "endpoints=%d" % len(made))
+
+
 def run(ctx):
     tmp = tempfile.mkdtemp(prefix="verif-c20-")
     try:
@@ -161,6 +265,29 @@ def run(ctx):
                 m = parse_model(mout[i])
                 if m != got:
                     ctx.disagree("model-vs-parse_server", {"input": s, "impl": list(got), "model": list(m)})
+        # the address reaches the connector unchanged: vncdo, api.connect and vnclog
+        picked = [s_ for s_ in cases if oracle(s_)[0] == "ok"][:ctx.n(150, 1500)] + [s_ for s_ in cases if oracle(s_)[0] == "err"][:ctx.n(40, 400)]
+        picked += [os.path.join(tmp, "sock"), os.path.join(tmp, "sock") + ":1", os.path.join(tmp, "sock") + "::5", "[::1]:2", "10.0.0.1::80", "example.org"]
+        for s_ in picked:
+            if s_.startswith("-") or "\x00" in s_:
+                continue
+            want = oracle(s_)
+            got = connector_args(s_)
+            ctx.case(None, key=("connector", s_))
+            ctx.count("connector_cases")
+            for who, g in got.items():
+                if (g[0] == "ok") != (want[0] == "ok") or (g[0] == "ok" and g != want):
+                    ctx.violate("addr-reaches-connector", {"input": s_, "impl": {who: list(g)}, "spec": list(want),
+                                                           "how": "%s run with the server string and a recording connector / reactor: family, host and port handed over vs the documented grammar" % who})
+        for fam, fname in ((socket.AF_INET, "inet"), (socket.AF_INET6, "inet6"), (socket.AF_UNSPEC, "unspec"), (getattr(socket, "AF_UNIX", None), "unix")):
+            if fam is None:
+                continue
+            got = endpoint_for(fam, "h", 5901)
+            want = ("unix", "h") if fname == "unix" else ("hostname", "h", 5901)
+            ctx.count("endpoint_cases")
+            if got != want:
+                ctx.violate("family-to-endpoint", {"input": {"family": fname, "host": "h", "port": 5901}, "impl": list(got), "spec": list(want),
+                                                   "how": "client.factory_connect with recording endpoint classes"})
         ctx.exhaustive = False
     finally:
         shutil.rmtree(tmp, ignore_errors=True)
